@@ -55,7 +55,16 @@ fn lex_ip_schemepart(source: &[char]) -> Option<usize> {
 }
 
 fn lex_login(source: &[char]) -> Option<usize> {
-    let hostport_start = if let Some(cred_end) = source.iter().position(|c| *c == '@') {
+    // Credentials end at the first `@` of this address: never look past its authority part
+    // (an `@` further on in the text belongs to something else).
+    let authority_end = source
+        .iter()
+        .position(|c| c.is_whitespace() || *c == '/')
+        .unwrap_or(source.len());
+
+    let hostport_start = if let Some(cred_end) =
+        source[..authority_end].iter().position(|c| *c == '@')
+    {
         if let Some(pass_beg) = source[0..cred_end].iter().position(|c| *c == ':') {
             if !is_uchar_plus_string(&source[pass_beg + 1..cred_end]) {
                 return None;
